@@ -304,9 +304,14 @@ pub fn build_script_pinned(asserts: &[F], timeout_ms: u64, want_model: bool, pin
         for tid in &terms {
             let d = match &a.nodes[*tid as usize] {
                 Node::Const(_) | Node::Var(_) => continue,
-                Node::Limb(v, i) => {
-                    let p = match i { 0 => "1", 1 => "18446744073709551616", 2 => "340282366920938463463374607431768211456", _ => "6277101735386680763835789423207666416102355444464034512896" };
-                    format!("(mod (div {} {}) 18446744073709551616)", a.vars[*v as usize].name, p)
+                Node::Limb(v, off) => {
+                    // 2^(8 off) as a decimal literal
+                    let mut p = fq::ONE;
+                    p[(*off as usize) / 8] = 1u64 << (8 * ((*off as usize) % 8));
+                    if (*off as usize) / 8 > 0 {
+                        p[0] = 0;
+                    }
+                    format!("(mod (div {} {}) 18446744073709551616)", a.vars[*v as usize].name, fq::to_dec(&p))
                 }
                 Node::Add(x, y) => format!("(+ {} {})", tname(a, *x), tname(a, *y)),
                 Node::Sub(x, y) => format!("(- {} {})", tname(a, *x), tname(a, *y)),
